@@ -793,7 +793,7 @@ func (x *enfRun) lieFacts(f *enfEnd, evs []netsim.Event) {
 	honestAnswered := map[string]bool{}
 	honestCPAnswered := map[string]bool{} // note of a getcfcheckpt an honest peer answered
 	// Every full-chain peer that answered a getcfheaders request, by request.
-	answers := cfheadersAnswers(e, func(addr string) []connView { return byAddr[addr].views })
+	answers, roundOf := cfheadersAnswers(e, evs, func(addr string) []connView { return byAddr[addr].views })
 	firstHonestCP := int64(-1)
 	for _, ep := range e.Peers {
 		switch ep.Plan.Class {
@@ -922,19 +922,29 @@ func (x *enfRun) lieFacts(f *enfEnd, evs []netsim.Event) {
 					if hashTold && ep.Plan.Lie.Height >= start && ep.Plan.Lie.Height < start+n {
 						pe.LieTold = "cfheaders"
 						f.conflictsSeen = true
-						other := contradictor(answers[pend.Note], ep, lieNode, start)
+						round := answers[roundOf(pend)]
+						other := contradictor(round, ep, lieNode, start)
+						byOther := "another peer (" + other + ") answered the same getcfheaders request with a different filter hash for that block"
+						liarsOnly := other != "" && !e.Plan.checkpointed() && !anyHonestClass(round)
+						if liarsOnly {
+							pe.LiarOnlyRounds++
+						}
 						switch {
 						case ep.Plan.Class == clBatchLiar && sentCP && int(ep.Plan.Lie.Height) <= e.Plan.ChainLen/1000*1000:
 							pe.Detectable = "the response contradicts the (true) filter checkpoints this very peer had served before"
 						case honestAnswered[pend.Note]:
-							pe.Detectable = "an honest peer answered the same getcfheaders request"
+							if pe.Detectable == "" || !liarsOnly {
+								pe.Detectable = "an honest peer answered the same getcfheaders request"
+							}
+							if liarsOnly && pe.ConflictRounds == 0 {
+								pe.Detectable = byOther // (the honest peers answered that request in a later round only)
+							}
 							pe.ConflictRounds++
 						case other != "" && !e.Plan.checkpointed():
 							if !strings.HasPrefix(pe.Detectable, "an honest peer") {
-								pe.Detectable = "another peer (" + other + ") answered the same getcfheaders request with a different filter hash for that block"
+								pe.Detectable = byOther
 							}
 							pe.ConflictRounds++
-							pe.LiarOnlyRounds++
 						case pe.Detectable == "" && firstHonestCP >= 0 && firstHonestCP < ev.Seq && e.Plan.checkpointed() &&
 							int(ep.Plan.Lie.Height) <= e.Plan.ChainLen/1000*1000:
 							pe.Detectable = "an honest peer's filter checkpoints were known before the lie was told"
@@ -1016,10 +1026,24 @@ func (x *enfRun) lieFacts(f *enfEnd, evs []netsim.Event) {
 	}
 }
 
-// cfheadersAnswers lists, per getcfheaders request (its log note: start and
-// stop), the full-chain peers that answered it with a non-empty cfheaders
-// message.
-func cfheadersAnswers(e *enfWorld, views func(addr string) []connView) map[string][]*enfPeer {
+// cfheadersAnswers lists, per round of getcfheaders requests, the full-chain
+// peers that answered with a non-empty cfheaders message. A round is what the
+// client sends to all its peers at once: the same request (log note: start
+// and stop) with no getcfilters request to anybody in between (the client
+// repeats a getcfheaders request only after a failed conflict resolution,
+// which asks for the filter of the disputed block first). roundOf gives the
+// key of the round a received getcfheaders belongs to.
+func cfheadersAnswers(e *enfWorld, evs []netsim.Event, views func(addr string) []connView) (map[string][]*enfPeer, func(*netsim.Event) string) {
+	var filterReqs []int64
+	for _, ev := range evs {
+		if ev.Dir == "rx" && ev.Cmd == "getcfilters" {
+			filterReqs = append(filterReqs, ev.Seq)
+		}
+	}
+	roundOf := func(req *netsim.Event) string {
+		n := sort.Search(len(filterReqs), func(i int) bool { return filterReqs[i] >= req.Seq })
+		return fmt.Sprintf("%s #%d", req.Note, n)
+	}
 	out := map[string][]*enfPeer{}
 	for _, ep := range e.Peers {
 		if !ep.full {
@@ -1039,16 +1063,26 @@ func cfheadersAnswers(e *enfWorld, views func(addr string) []connView) map[strin
 				case ev.Dir == "tx" && ev.Cmd == "cfheaders" && pend != nil:
 					var n int32
 					fmt.Sscanf(ev.Note, "n=%d", &n)
-					if n > 0 && !seen[pend.Note] {
-						seen[pend.Note] = true
-						out[pend.Note] = append(out[pend.Note], ep)
+					if key := roundOf(pend); n > 0 && !seen[key] {
+						seen[key] = true
+						out[key] = append(out[key], ep)
 					}
 					pend = nil
 				}
 			}
 		}
 	}
-	return out
+	return out, roundOf
+}
+
+func anyHonestClass(ps []*enfPeer) bool {
+	for _, p := range ps {
+		switch p.Plan.Class {
+		case clHonest, clSlow, clFlaky:
+			return true
+		}
+	}
+	return false
 }
 
 // contradictor returns the label of a peer among those that answered the
@@ -1094,11 +1128,11 @@ func (x *enfRun) uncontradictedLiar() string {
 	for _, ep := range e.Peers {
 		views[ep.P.Addr] = connViews(w, ep.P.Addr, evs)
 	}
-	answers := cfheadersAnswers(e, func(addr string) []connView { return views[addr] })
+	answers, _ := cfheadersAnswers(e, evs, func(addr string) []connView { return views[addr] })
 	tip := e.Tip()
-	for note, who := range answers {
+	for round, who := range answers {
 		var start int32
-		fmt.Sscanf(note, "start=%d", &start)
+		fmt.Sscanf(round, "start=%d", &start)
 		for _, ep := range who {
 			if ep.Liar == nil || ep.Plan.Late || ep.Plan.Lie.Height < start {
 				continue
@@ -1274,6 +1308,10 @@ func (x *enfRun) judge(f *enfEnd) {
 				why = fmt.Sprintf("it served a provably false filter hash (%s) while %s, %d times over, and after the conflict first became visible the disputed block was served to the client %d time(s) and the peer itself served %d time(s) a filter for that block that does not hash to the filter hash it announced; committed filter tip %d, lie at height %d",
 					pe.Label, pe.Detectable, pe.ConflictRounds, pe.DisputedBlockServed, pe.SelfContradictions, f.FilterTip, lieH)
 				pathSuffix = "/conflict-resolution-went-round-in-circles"
+				if pe.LiarOnlyRounds >= pe.ConflictRounds {
+					// (every peer of the conflict was a liar or a mute peer)
+					pathSuffix += "/no-honest-peer-in-the-conflict"
+				}
 			}
 			res.Count("enf_conflict_rounds_without_an_honest_peer", int64(pe.LiarOnlyRounds))
 			if pe.SelfContradictions > 0 {
